@@ -480,6 +480,9 @@ func childHS() {
 				a.extra["not_executed_after_expensive_budget"]++
 				continue
 			}
+			if sinceBase++; sinceBase >= 128 {
+				profBase, sinceBase = profSnapshot(), 0
+			}
 			before := a.extra["expensive"]
 			hsOne(ci, cs, idx, a)
 			expensive += int(a.extra["expensive"] - before)
